@@ -21,8 +21,22 @@
 (* predecessors in the same table (also across PCA/CPCA, which share table names); every content number of the model *)
 (* written at step t is the number Cell(t); dimension entries are numbers below CellBase, so the model can    *)
 (* tell when a reader takes a content number for a dimension or the other way round.                          *)
+(* Further variants / bounds of a configuration:                                                                *)
+(*   ReadBlock   0     = read_vector takes every row of the table (one append per row)                          *)
+(*               b > 0 = a reader that grows its result in blocks of b numbers and sets the length only when it  *)
+(*                       trims a partial last block: a table with a non-zero multiple of b rows reads as length 0 *)
+(*                       (never the tree's behaviour; it is the model-level reason for input class K2, see       *)
+(*                       RoundTripExact / LegacyBlockBlind below)                                                *)
+(*   SizeSet     the size classes the Write action explores: 1..3 abstract, >= 4 the concrete profiles below     *)
+(*   Rewrites    TRUE = the same in-memory model may be written once more (action Rewrite, input class K7)       *)
+(*   Reuse       "off" = every Read fills a fresh model object (what C16 states); "appends" / "resets" = a model   *)
+(*               object filled by an earlier Read may be handed to Read again (action ReadAgain - OUTSIDE the       *)
+(*               statement of C16): "appends" = io.c as it is (the destination's vectors, lists and tensors are     *)
+(*               appended to), "resets" = a reader that empties its destination first                               *)
+(*   Shape       "all" = every history within MaxHist; "prof" / "profall" / "rewrite" / "reuse" = the history      *)
+(*               families ProfHist / RewriteHist / ReuseHist below (a filter applied before the files are built)    *)
 EXTENDS Naturals, Sequences, FiniteSets, TLC
-CONSTANTS Paths, MaxHist, DropTables, SaveAll
+CONSTANTS Paths, MaxHist, DropTables, SaveAll, ReadBlock, SizeSet, Rewrites, Shape, Reuse
 
 Kinds == {"PCA", "CPCA", "PLS"}
 Sizes == {1, 2, 3}     \* 1 = small, 2 = large (both fitted with centring/scaling), 3 = "unscaled": a small model fitted with
@@ -58,7 +72,7 @@ FieldIdx(k, f) == FieldIdxT[k][f]
 TypeOf(k, f) == TypeOfT[k][f]
 
 (* ---- shapes: a sequence of dims, one <<n>> per vector / <<r, c>> per matrix (vec, mat: length 1) ---- *)
-CellBase == 100
+CellBase == 1000      \* above every dimension of every model of the alphabet (largest: 257 variables)
 Cell(tag) == CellBase + tag
 IsCell(x) == x >= CellBase
 Cells(n, tag) == [i \in 1..n |-> Cell(tag)]
@@ -81,7 +95,67 @@ AbsShape(k, f, s) ==
   IF s < 3 THEN AbsShape12(k, f, s)
   ELSE IF f \notin Prep(k) THEN AbsShape12(k, f, 1)
   ELSE IF TypeOf(k, f) = "vec" THEN << <<0>> >> ELSE [j \in 1..Len(AbsShape12(k, f, 1)) |-> <<0>>]
-AbsModelT == [k \in Kinds |-> [s \in Sizes |-> [f \in ModelFields(k) |-> AbsShape(k, f, s)]]]
+
+(* ---- concrete models: the shapes of a FITTED model as a function of the fit parameters (pca.c, cpca.c, pls.c; the harness ---- *)
+(* fills the validation side of a PLS model with val = 1).  Parameter vectors, content class cc last (TraceIo):                 *)
+(*   PCA  <<n, p, a, cc>>            n objects, p variables, a components                                                       *)
+(*   CPCA <<n, ctot, a, nb, cc>>     nb blocks with ctot columns in all (block k: ctot \div nb, the first ctot % nb one more)   *)
+(*   PLS  <<n, p, a, ny, val, tr, tc, cc>>   val = 1: predictions/statistics filled, the four curve tensors hold matrices of     *)
+(*                                   (tr+1) x tc (the two roc tensors) and tr x tc (precision_recall), a-1 (min 1) resp. a of them *)
+Vsh(n) == << <<n>> >>
+Msh(r, c) == << <<r, c>> >>
+Rep(n, d) == [i \in 1..n |-> d]
+BlockCols(ctot, nb) == [j \in 1..nb |-> (ctot \div nb) + (IF j <= ctot % nb THEN 1 ELSE 0)]
+FitPCA(q) == LET n == q[1] p == q[2] a == q[3] IN
+  [colaverage |-> Vsh(p), colscaling |-> Vsh(p), varexp |-> Vsh(a), scores |-> Msh(n, a), loadings |-> Msh(p, a), dmodx |-> Msh(n, a)]
+RECURSIVE MinOf(_)
+MinOf(sq) == IF Len(sq) = 1 THEN sq[1] ELSE LET m == MinOf(Tail(sq)) IN IF sq[1] < m THEN sq[1] ELSE m
+\* CPCA() caps the number of components at the number of columns of its narrowest block (cpca.c:145)
+FitCPCA(q) == LET n == q[1] nb == q[4] cs == BlockCols(q[2], nb) a == IF q[3] < MinOf(cs) THEN q[3] ELSE MinOf(cs) IN
+  [scaling_factor |-> Vsh(nb), total_expvar |-> Vsh(a), block_scores |-> Rep(a, <<n, nb>>), block_loadings |-> [j \in 1..nb |-> <<cs[j], a>>],
+   super_scores |-> Msh(n, a), super_weights |-> Msh(nb, a), block_expvar |-> Rep(a, <<nb>>),
+   colaverage |-> [j \in 1..nb |-> <<cs[j]>>], colscaling |-> [j \in 1..nb |-> <<cs[j]>>]]
+FitPLS(q) == LET n == q[1] p == q[2] a == q[3] ny == q[4] val == q[5] = 1 tr == q[6] tc == q[7]
+                 a0 == IF a > 1 THEN a - 1 ELSE 1
+                 MV(r, c) == IF val THEN Msh(r, c) ELSE Msh(0, 0)
+                 TV(m, r, c) == IF val THEN Rep(m, <<r, c>>) ELSE <<>> IN
+  [xcolscaling |-> Vsh(p), xcolaverage |-> Vsh(p), ycolscaling |-> Vsh(ny), ycolaverage |-> Vsh(ny), xvarexp |-> Vsh(a), b |-> Vsh(a),
+   xscores |-> Msh(n, a), xloadings |-> Msh(p, a), xweights |-> Msh(p, a), yscores |-> Msh(n, a), yloadings |-> Msh(ny, a),
+   recalculated_y |-> Msh(n, ny * a), recalc_residuals |-> Msh(n, ny * a), predicted_y |-> MV(n, ny * a), pred_residuals |-> MV(n, ny * a),
+   r2y_validation |-> MV(a, ny), r2y_recalculated |-> MV(a, ny), q2y |-> MV(a, ny), sdep |-> MV(a, ny), sdec |-> MV(a, ny), bias |-> MV(a, ny),
+   roc_auc_recalculated |-> MV(a0, ny), roc_auc_validation |-> MV(a, ny), precision_recall_ap_recalculated |-> MV(a0, ny),
+   precision_recall_ap_validation |-> MV(a, ny), yscrambling |-> MV(4, 2 * ny),
+   roc_recalculated |-> TV(a0, tr + 1, tc), roc_validation |-> TV(a, tr + 1, tc),
+   precision_recall_recalculated |-> TV(a0, tr, tc), precision_recall_validation |-> TV(a, tr, tc)]
+FitShape(k, q) == CASE k = "PCA" -> FitPCA(q) [] k = "CPCA" -> FitCPCA(q) [] k = "PLS" -> FitPLS(q)
+
+(* the profiles: size class 3 + i of kind k is the model fitted with parameters Profiles[k][i].  The dimensions are chosen so that the   *)
+(* serialised length of some vector / matrix / tensor / list field is a block-size boundary b or b +- 1, b in {4,32,64,96,128,256}   *)
+(* (input class K2; which boundaries are reached is THEOREM-checked below: K2Covered), plus shape relations (K1: square, n = p +- 1, *)
+(* a = p, a single variable, single-column blocks) and the content classes 1..4 on mid-sized models (K3, K4, K5).                   *)
+Profiles == [
+  PCA |-> << <<6,2,1,0>>, <<6,3,1,0>>, <<6,4,1,0>>, <<6,5,1,0>>, <<6,32,1,0>>, <<6,33,1,0>>, <<10,31,3,0>>, <<29,63,1,0>>, <<6,61,1,0>>,
+             <<6,64,1,0>>, <<6,65,1,0>>, <<31,127,2,0>>,
+             <<6,42,3,0>>, <<6,47,2,0>>, <<6,96,1,0>>, <<6,97,1,0>>, <<6,127,1,0>>, <<6,128,1,0>>, <<6,129,1,0>>, <<6,255,1,0>>, <<6,256,1,0>>,
+             <<6,257,1,0>>, <<31,95,1,0>>,
+             <<8,8,2,0>>, <<8,7,2,0>>, <<8,9,2,0>>, <<8,3,3,0>>, <<7,1,1,0>>, <<9,5,2,1>>, <<9,5,2,2>>, <<9,5,2,3>>, <<9,5,2,4>>, <<10,32,3,2>>, <<10,32,3,3>> >>,
+  CPCA |-> << <<15,27,1,2,0>>, <<15,27,1,4,0>>, <<15,29,2,3,0>>, <<31,24,1,3,0>>, <<6,19,3,3,0>>, <<6,63,1,2,0>>, <<29,64,1,32,0>>, <<23,61,2,2,0>>,
+              <<6,41,3,2,0>>, <<6,93,1,2,0>>, <<6,95,1,2,0>>, <<6,95,2,33,0>>, <<6,251,1,2,0>>, <<6,253,1,2,0>>, <<6,254,1,2,0>>, <<6,255,1,2,0>>,
+              <<15,96,2,31,0>>, <<21,98,3,31,0>>,
+              <<8,8,2,2,0>>, <<6,14,1,2,0>>, <<7,2,1,2,0>>, <<9,9,2,3,1>>, <<9,9,2,3,2>>, <<9,9,2,3,3>>, <<9,9,2,3,4>>, <<8,29,2,3,2>>, <<8,29,2,3,3>> >>,
+  PLS |-> << <<6,3,1,1,1,13,2,0>>, <<15,31,2,1,1,29,1,0>>, <<29,32,1,1,1,2,1,0>>, <<6,33,2,1,1,60,1,0>>, <<6,95,1,63,0,0,0,0>>,
+             <<6,127,1,64,0,0,0,0>>, <<6,255,1,65,0,0,0,0>>, <<31,5,1,3,1,93,1,0>>,
+             <<6,3,1,1,1,252,1,0>>, <<6,3,2,1,1,14,3,0>>, <<6,96,1,1,0,0,0,0>>, <<6,97,1,1,0,0,0,0>>, <<6,127,2,1,0,0,0,0>>, <<6,128,1,1,0,0,0,0>>,
+             <<6,129,1,1,0,0,0,0>>, <<6,256,1,1,0,0,0,0>>, <<6,257,1,1,0,0,0,0>>, <<21,4,2,3,1,125,1,0>>,
+             <<8,8,2,1,0,0,0,0>>, <<8,9,2,2,0,0,0,0>>, <<8,7,2,2,0,0,0,0>>, <<7,3,3,1,0,0,0,0>>, <<7,1,1,1,0,0,0,0>>,
+             <<9,5,2,2,1,3,4,1>>, <<9,5,2,2,1,3,4,2>>, <<9,5,2,2,1,3,4,3>>, <<9,5,2,2,1,3,4,4>>, <<10,32,2,32,0,0,0,2>>, <<10,32,2,2,0,0,0,3>> >>]
+NProf(k) == Len(Profiles[k])
+ProfSizes(k) == 4..(3 + NProf(k))
+AllSizes(k) == Sizes \cup ProfSizes(k)
+ParamsOf(k, s) == IF s \in Sizes THEN <<>> ELSE Profiles[k][s - 3]
+ContentClass(k, s) == IF s \in Sizes THEN 9 ELSE Profiles[k][s - 3][Len(Profiles[k][s - 3])]     \* 9: drawn by the harness (moderate or rescaled)
+
+AbsModelT == [k \in Kinds |-> [s \in AllSizes(k) |-> IF s \in Sizes THEN [f \in ModelFields(k) |-> AbsShape(k, f, s)] ELSE FitShape(k, ParamsOf(k, s))]]
 AbsModel(k, s) == AbsModelT[k][s]
 
 (* ---- serialisers (io.c:11-30, 49-60, 75-89) ---- *)
@@ -93,6 +167,17 @@ Ser(ty, sh, tag) == CASE ty = "vec" -> Cells(sh[1][1], tag)
                       [] ty = "ten" -> <<Len(sh)>> \o SerMats(sh, tag)
                       [] ty = "lst" -> SerVecs(sh, tag)
 
+RECURSIVE SumMatLen(_), SumVecLen(_)
+SumMatLen(sh) == IF sh = <<>> THEN 0 ELSE 2 + sh[1][1] * sh[1][2] + SumMatLen(Tail(sh))
+SumVecLen(sh) == IF sh = <<>> THEN 0 ELSE 1 + sh[1][1] + SumVecLen(Tail(sh))
+\* number of rows a field occupies in its table
+SerLen(ty, sh) == CASE ty = "vec" -> sh[1][1] [] ty = "mat" -> SumMatLen(sh) [] ty = "ten" -> 1 + SumMatLen(sh) [] ty = "lst" -> SumVecLen(sh)
+\* rows the saved fields of model (k, s) occupy in all
+RECURSIVE SumLens(_, _, _)
+SumLens(k, s, fs) == IF fs = {} THEN 0 ELSE LET f == CHOOSE g \in fs : TRUE IN SerLen(TypeOf(k, f), AbsModel(k, s)[f]) + SumLens(k, s, fs \ {f})
+ModelRowsT == [k \in Kinds |-> [s \in AllSizes(k) |-> SumLens(k, s, SavedFields(k))]]
+ModelRows(k, s) == ModelRowsT[k][s]
+
 (* ---- deserialisers (io.c:32-47, 62-73, 92-104, 175-209).  Result: dims read, set of content numbers read, *)
 (* ok = FALSE when the C code would read outside the fetched rows or take a content number for a dimension   *)
 (* (undefined behaviour / garbage in the real code).                                                          *)
@@ -101,7 +186,9 @@ Bad == Res(<<>>, {}, FALSE)
 Fresh(ty) == Res(IF ty = "mat" THEN << <<0, 0>> >> ELSE IF ty = "vec" THEN << <<0>> >> ELSE <<>>, {}, TRUE)   \* a field nobody reads
 Content(rows, a, b) == {rows[i] : i \in a..b}
 AllCells(rows, a, b) == \A i \in a..b : IsCell(rows[i])
-DeVec(rows) == Res(<< <<Len(rows)>> >>, Content(rows, 1, Len(rows)), AllCells(rows, 1, Len(rows)))
+\* the length read_vector reports for the fetched rows (variant ReadBlock); the numbers themselves are always fetched
+RawLen(rows) == IF ReadBlock > 0 /\ Len(rows) > 0 /\ Len(rows) % ReadBlock = 0 THEN 0 ELSE Len(rows)
+DeVec(rows) == Res(<< <<RawLen(rows)>> >>, Content(rows, 1, RawLen(rows)), AllCells(rows, 1, RawLen(rows)))
 \* one matrix starting at row c: dims from rows c, c+1, then r*cc cells; nx = next unread row
 MatAt(rows, c) ==
   IF c + 1 > Len(rows) THEN [d |-> <<0, 0>>, tags |-> {}, ok |-> FALSE, nx |-> Len(rows) + 1]
@@ -117,8 +204,8 @@ TenFrom(rows, c, k) ==
        ELSE LET rest == TenFrom(rows, m.nx, k - 1) IN Res(<<m.d>> \o rest.dims, m.tags \cup rest.tags, rest.ok)
 DeTen(rows) == IF Len(rows) = 0 \/ IsCell(rows[1]) THEN Bad ELSE TenFrom(rows, 2, rows[1])
 RECURSIVE LstFrom(_, _)
-LstFrom(rows, c) ==        \* while(c < size): length-prefixed vectors until the rows are used up
-  IF c > Len(rows) THEN Res(<<>>, {}, TRUE)
+LstFrom(rows, c) ==        \* while(c < size): length-prefixed vectors until the rows are used up (size = the length read_vector reported)
+  IF c > RawLen(rows) THEN Res(<<>>, {}, TRUE)
   ELSE LET n == rows[c] IN
        IF IsCell(n) \/ c + n > Len(rows) THEN Res(<< <<n>> >>, {}, FALSE)
        ELSE LET rest == LstFrom(rows, c + 1 + n) IN
@@ -140,6 +227,22 @@ FileRead(tabs, k) == [f \in ModelFields(k) |->
                         ELSE IF ~tabs[f].present THEN Bad ELSE Deser(TypeOf(k, f), tabs[f].rows)]
 \* what a reader must get back for the model (shapes, tag)
 Expect(k, shapes, tag) == [f \in ModelFields(k) |-> Res(shapes[f], IF NCells(shapes[f]) = 0 THEN {} ELSE {Cell(tag)}, TRUE)]
+\* Read<kind> given a model object that already holds `old` (the result of an earlier Read): read_vector APPENDS to the dvector it is given
+\* (plain vector fields), deserialize_matrix resizes = replaces, deserialize_tensor appends its matrices (AddTensorMatrix) but stores the
+\* cells of its j-th matrix into the j-th matrix the tensor ALREADY has (out of bounds when that one is smaller: ok = FALSE),
+\* deserialize_dvectorlist appends its vectors; a field nobody reads keeps what the object held
+IntoField(ty, old, new) ==
+  CASE ty = "vec" -> Res(<< <<old.dims[1][1] + new.dims[1][1]>> >>, old.tags \cup new.tags, old.ok /\ new.ok)
+    [] ty = "mat" -> new
+    [] ty = "lst" -> Res(old.dims \o new.dims, old.tags \cup new.tags, old.ok /\ new.ok)
+    [] ty = "ten" -> LET all == old.dims \o new.dims IN
+                     Res(all, old.tags \cup new.tags,
+                         old.ok /\ new.ok /\ \A j \in 1..Len(new.dims) : all[j][1] >= new.dims[j][1] /\ all[j][2] >= new.dims[j][2])
+FileReadInto(tabs, k, old) == [f \in ModelFields(k) |->
+                                IF f \in Unsaved(k) THEN old[f]
+                                ELSE IF ~tabs[f].present THEN Bad
+                                ELSE LET new == Deser(TypeOf(k, f), tabs[f].rows) IN
+                                     IF Reuse = "resets" THEN new ELSE IF ~new.ok \/ ~old[f].ok THEN Bad ELSE IntoField(TypeOf(k, f), old[f], new)]
 RowCounts(tabs) == [t \in {u \in AllTables : tabs[u].present} |-> Len(tabs[t].rows)]
 
 (* ---- histories ---- *)
@@ -148,40 +251,156 @@ VARIABLES db,        \* path -> table name -> [present, rows]
           hist,      \* its length
           lastw,     \* path -> kind -> [sh, tag] of the most recent Write of that kind to that path (tag 0: none)
           lastkind,  \* path -> kind most recently written ("none")
-          lastread   \* result of the Read just performed
-vars == <<db, ops, hist, lastw, lastkind, lastread>>
+          lastread,  \* result of the Read just performed
+          held       \* kind -> what the model object filled by the most recent Read of that kind holds (Reuse # "off"; else never changes)
+vars == <<db, ops, hist, lastw, lastkind, lastread, held>>
 NoWrite == [sh |-> <<>>, tag |-> 0]
-NoRead == [valid |-> FALSE, p |-> "", k |-> "", res |-> <<>>]
+NoRead == [valid |-> FALSE, p |-> "", k |-> "", res |-> <<>>, reused |-> FALSE]
+NoObject == [valid |-> FALSE, res |-> <<>>]
 Init == /\ db = [p \in Paths |-> EmptyFile] /\ ops = <<>> /\ hist = 0
         /\ lastw = [p \in Paths |-> [k \in Kinds |-> NoWrite]] /\ lastkind = [p \in Paths |-> "none"] /\ lastread = NoRead
+        /\ held = [k \in Kinds |-> NoObject]
 
+(* ---- history families: which histories a configuration explores (Shape) ---- *)
+\* "prof" (on one path): every profile written and read; written over / under a model of an abstract class of the same kind, or of the
+\* kind that shares its table names (PCA / CPCA: colaverage, colscaling)
+Partner(k1, k2) == k1 = k2 \/ {k1, k2} = {"PCA", "CPCA"}
+IsProf(o) == o.op = "W" /\ o.s >= 4
+\* (Shape = "prof": only profiles of at most 250 rows are mixed with another model; "profall": all of them)
+Mixable(o) == Shape = "profall" \/ ModelRows(o.k, o.s) <= 250
+ProfHist(h) == /\ \A i \in 1..Len(h) : h[i].p = "p1"
+               /\ h[1].op = "W"
+               /\ Len(h) >= 2 => \/ IsProf(h[1]) /\ h[2].op = "R"
+                                 \/ IsProf(h[1]) /\ Mixable(h[1]) /\ h[2].op = "W" /\ h[2].s = 3 /\ Partner(h[1].k, h[2].k)
+                                 \/ ~IsProf(h[1]) /\ h[1].s = 2 /\ IsProf(h[2]) /\ Mixable(h[2]) /\ Partner(h[1].k, h[2].k)
+               /\ Len(h) >= 3 => h[2].op = "W" /\ h[3].op = "R"
+\* "rewrite" (K7): the model made first is written once more, to the same or the other path, before or after one other Write of its kind, then read
+NX(h) == Cardinality({i \in 1..Len(h) : h[i].op = "X"})
+RewriteHist(h) == /\ \A i \in 1..Len(h) : h[i].op = "W" => h[i].p = "p1" /\ h[i].k = h[1].k
+                  /\ NX(h) <= 1 /\ \A i \in 1..Len(h) : h[i].op = "X" => h[i].s = 1
+                  /\ h[1].op = "W"
+                  /\ Len(h) >= 2 => h[2].op \in {"X", "W"}
+                  /\ Len(h) >= 3 => NX(h) = 1
+                  /\ Len(h) >= 4 => h[3].op # "R" /\ h[4].op = "R"
+\* "reuse" (outside the statement): a model is written and read; the object that Read filled is handed to Read again, for the same file or
+\* after one more Write of that kind to either path
+ReuseHist(h) == /\ h[1].op = "W" /\ h[1].p = "p1"
+                /\ Len(h) >= 2 => h[2].op = "R"
+                /\ Len(h) >= 3 => h[3].op = "Q" \/ (h[3].op = "W" /\ h[3].k = h[1].k)
+                /\ Len(h) >= 4 => h[3].op = "W" /\ h[4].op = "Q" /\ h[4].p = h[3].p
+Admit(h) == CASE Shape = "all" -> TRUE [] Shape = "reuse" -> ReuseHist(h) [] Shape \in {"prof", "profall"} -> ProfHist(h) [] Shape = "rewrite" -> RewriteHist(h)
+
+\* every action = its history part (enabling condition, ghost history, kind last written: shared with the generator IoGen, which explores
+\* the histories without building the files) /\ its effect on the files and on the observation
+WriteH(p, k, s) ==
+  /\ s \in SizeSet \cap AllSizes(k)
+  /\ hist < MaxHist /\ Admit(Append(ops, [op |-> "W", p |-> p, k |-> k, s |-> s]))
+  /\ hist' = hist + 1 /\ ops' = Append(ops, [op |-> "W", p |-> p, k |-> k, s |-> s])
+  /\ lastkind' = [lastkind EXCEPT ![p] = k]
 Write(p, k, s) ==
-  /\ hist < MaxHist /\ hist' = hist + 1 /\ ops' = Append(ops, [op |-> "W", p |-> p, k |-> k, s |-> s])
+  /\ WriteH(p, k, s)
   /\ db' = [db EXCEPT ![p] = FileWrite(@, k, AbsModel(k, s), hist + 1)]
   /\ lastw' = [lastw EXCEPT ![p][k] = [sh |-> AbsModel(k, s), tag |-> hist + 1]]
-  /\ lastkind' = [lastkind EXCEPT ![p] = k] /\ lastread' = NoRead
+  /\ lastread' = NoRead /\ held' = held
 
 \* reading kind k from a file whose latest model is of another kind is not a request the property speaks about
+ReadH(p, k) ==
+  /\ hist < MaxHist /\ lastkind[p] = k /\ Admit(Append(ops, [op |-> "R", p |-> p, k |-> k, s |-> 0]))
+  /\ hist' = hist + 1 /\ ops' = Append(ops, [op |-> "R", p |-> p, k |-> k, s |-> 0]) /\ lastkind' = lastkind
 Read(p, k) ==
-  /\ hist < MaxHist /\ hist' = hist + 1 /\ ops' = Append(ops, [op |-> "R", p |-> p, k |-> k, s |-> 0])
-  /\ lastkind[p] = k
-  /\ lastread' = [valid |-> TRUE, p |-> p, k |-> k, res |-> FileRead(db[p], k)]
-  /\ UNCHANGED <<db, lastw, lastkind>>
+  /\ ReadH(p, k)
+  /\ lastread' = [valid |-> TRUE, p |-> p, k |-> k, res |-> FileRead(db[p], k), reused |-> FALSE]
+  /\ held' = IF Reuse = "off" THEN held ELSE [held EXCEPT ![k] = [valid |-> TRUE, res |-> FileRead(db[p], k)]]
+  /\ UNCHANGED <<db, lastw>>
 
-Next == \E p \in Paths, k \in Kinds : (\E s \in Sizes : Write(p, k, s)) \/ Read(p, k)
+\* OUTSIDE the statement of C16: the model object filled by the most recent Read of kind k is handed to Read<kind> once more
+ReadAgainH(p, k) ==
+  /\ Reuse # "off" /\ hist < MaxHist /\ lastkind[p] = k /\ held[k].valid /\ Admit(Append(ops, [op |-> "Q", p |-> p, k |-> k, s |-> 0]))
+  /\ hist' = hist + 1 /\ ops' = Append(ops, [op |-> "Q", p |-> p, k |-> k, s |-> 0]) /\ lastkind' = lastkind
+ReadAgain(p, k) ==
+  /\ ReadAgainH(p, k)
+  /\ LET res == FileReadInto(db[p], k, held[k].res) IN
+       /\ lastread' = [valid |-> TRUE, p |-> p, k |-> k, res |-> res, reused |-> TRUE]
+       /\ held' = [held EXCEPT ![k] = [valid |-> TRUE, res |-> res]]
+  /\ UNCHANGED <<db, lastw>>
+
+\* the in-memory model made at step t (a Write of kind k) is written once more, to any path: same object, same content tag t
+RewriteH(p, k, t) ==
+  /\ Rewrites /\ hist < MaxHist /\ t \in 1..hist /\ ops[t].op = "W" /\ ops[t].k = k
+  /\ Admit(Append(ops, [op |-> "X", p |-> p, k |-> k, s |-> t]))
+  /\ hist' = hist + 1 /\ ops' = Append(ops, [op |-> "X", p |-> p, k |-> k, s |-> t])
+  /\ lastkind' = [lastkind EXCEPT ![p] = k]
+Rewrite(p, k, t) ==
+  /\ RewriteH(p, k, t)
+  /\ db' = [db EXCEPT ![p] = FileWrite(@, k, AbsModel(k, ops[t].s), t)]
+  /\ lastw' = [lastw EXCEPT ![p][k] = [sh |-> AbsModel(k, ops[t].s), tag |-> t]]
+  /\ lastread' = NoRead /\ held' = held
+
+Next == \E p \in Paths, k \in Kinds : (\E s \in SizeSet : Write(p, k, s)) \/ Read(p, k) \/ (\E t \in 1..MaxHist : Rewrite(p, k, t)) \/ ReadAgain(p, k)
 Spec == Init /\ [][Next]_vars
 
 \* the property: a Read returns the dims and the content of the most recent Write of that kind to that path
-ReadsLast == lastread.valid =>
+ReadsLast == lastread.valid /\ ~lastread.reused =>
+               LET w == lastw[lastread.p][lastread.k] IN lastread.res = Expect(lastread.k, w.sh, w.tag)
+\* the same expectation for a Read into a model object that is not fresh (not stated by C16; refuted for Reuse = "appends", holds for "resets")
+ReusedReadsLast == lastread.valid /\ lastread.reused =>
                LET w == lastw[lastread.p][lastread.k] IN lastread.res = Expect(lastread.k, w.sh, w.tag)
 \* sanity of the abstract models: the two size classes differ in every field, so a stale read cannot go unnoticed
 SizesDiffer == /\ \A k \in Kinds : \A f \in ModelFields(k) : AbsShape(k, f, 1) # AbsShape(k, f, 2)
                /\ \A k \in Kinds : \A f \in Prep(k) : NCells(AbsShape(k, f, 3)) = 0 /\ NCells(AbsShape(k, f, 2)) > 0
 \* the clause "empty optional fields stay empty", stated on its own (implied by ReadsLast): a field that is empty in the model
 \* last written is read back with exactly its (empty) dims and no content number, whatever the table held before
-EmptyStaysEmpty == lastread.valid =>
+EmptyStaysEmpty == lastread.valid /\ ~lastread.reused =>
                      LET w == lastw[lastread.p][lastread.k] IN
                      \A f \in ModelFields(lastread.k) : NCells(w.sh[f]) = 0 =>
                         (lastread.res[f].dims = w.sh[f] /\ lastread.res[f].tags = {} /\ lastread.res[f].ok)
-MCView == <<db, hist, lastw, lastkind, lastread>>
+\* the file of a path is a function of the model last written to it alone: this is why the length of the history before the last
+\* Write is irrelevant for the conforming variant (and what DropTables = FALSE breaks)
+Canonical == DropTables => \A p \in Paths :
+               db[p] = IF lastkind[p] = "none" THEN EmptyFile
+                       ELSE LET w == lastw[p][lastkind[p]] IN FileWrite(EmptyFile, lastkind[p], w.sh, w.tag)
+\* with Rewrites the models still in memory (made, possibly overwritten in every file) are part of the state
+MemView == IF Rewrites THEN [i \in 1..Len(ops) |-> IF ops[i].op = "W" THEN <<ops[i].k, ops[i].s>> ELSE <<>>] ELSE <<>>
+\* a history family (Shape # "all") filters on the history itself: no two histories may be identified
+MCView == <<db, hist, lastw, lastkind, lastread, MemView, IF Shape = "all" THEN <<>> ELSE ops, held>>
+
+(* ---- lemmas about the (de)serialisers, evaluated on every model of the alphabet (state-independent; MC_Io_lemmas*.cfg) ---- *)
+AllModels == UNION {{<<k, s>> : s \in AllSizes(k)} : k \in Kinds}
+\* (the lemmas mention the variable hist, vacuously: TLC evaluates constant-level definitions at start-up of EVERY run, also of every trace
+\* validation; as state-level invariants they cost only where they are checked: the one-state configurations MC_Io_lemmas*.cfg)
+AtAnyState(P) == hist \in Nat /\ P
+SerLenOK == AtAnyState(\A m \in AllModels : \A f \in ModelFields(m[1]) :
+              Len(Ser(TypeOf(m[1], f), AbsModel(m[1], m[2])[f], 1)) = SerLen(TypeOf(m[1], f), AbsModel(m[1], m[2])[f]))
+\* the tables a block-wise reader (ReadBlock = b) gets wrong: plain vectors and lists (their length IS the reported length) with a
+\* non-zero multiple of b rows; matrices and tensors carry their dimensions in band and are read correctly
+BlockBlind(ty, n) == ReadBlock > 0 /\ n > 0 /\ n % ReadBlock = 0 /\ ty \in {"vec", "lst"}
+RoundTripExact == AtAnyState(\A m \in AllModels : \A f \in SavedFields(m[1]) :
+                    LET ty == TypeOf(m[1], f) sh == AbsModel(m[1], m[2])[f] IN
+                    (Deser(ty, Ser(ty, sh, 1)) = Res(sh, IF NCells(sh) = 0 THEN {} ELSE {Cell(1)}, TRUE)) <=> ~BlockBlind(ty, SerLen(ty, sh)))
+\* stale rows behind a complete matrix / tensor are never looked at; behind a vector or list they are taken for content (DropTables = FALSE)
+StaleSuffix == AtAnyState(\A m \in AllModels : \A f \in SavedFields(m[1]) :
+                 LET ty == TypeOf(m[1], f) sh == AbsModel(m[1], m[2])[f] new == Ser(ty, sh, 2) old == Ser(ty, sh, 1) IN
+                 ReadBlock = 0 /\ Len(old) > 0 =>
+                   IF ty \in {"mat", "ten"} THEN Deser(ty, new \o old) = Deser(ty, new) ELSE Deser(ty, new \o old) # Deser(ty, new))
+\* why the three abstract size classes could not tell the block-wise reader from the conforming one: none of their tables has 32k rows
+LegacyBlockBlind == AtAnyState(\A k \in Kinds : \A s \in Sizes : \A f \in SavedFields(k) :
+                      LET n == SerLen(TypeOf(k, f), AbsModel(k, s)[f]) IN ~(n > 0 /\ n % 32 = 0))
+\* input class K2: for every kind and every field type, which serialised lengths b - 1, b, b + 1 around the block sizes b are written and
+\* read by some profile.  K2Unreachable: boundaries that no model within the parameter ranges searched (n <= 40 objects, <= 3 components,
+\* <= 33 blocks, <= 257 variables, <= 65 responses) reaches - a matrix table has 2 + r * c rows with (r, c) tied to those ranges, a CPCA
+\* vector has as many entries as blocks or components, a tensor table has at least 1 + 2 + 1 rows
+K2Blocks == {4, 32, 64, 96, 128, 256}
+TypesOf(k) == {TypeOf(k, f) : f \in SavedFields(k)}
+Hits(k, ty, n) == \E s \in ProfSizes(k) : \E f \in SavedFields(k) : TypeOf(k, f) = ty /\ SerLen(ty, AbsModel(k, s)[f]) = n
+K2Unreachable == {
+    <<"CPCA", "mat", 3>>, <<"CPCA", "mat", 63>>, <<"CPCA", "mat", 96>>, <<"CPCA", "mat", 97>>, <<"CPCA", "mat", 127>>,
+    <<"CPCA", "mat", 128>>, <<"CPCA", "mat", 129>>, <<"CPCA", "mat", 255>>, <<"CPCA", "mat", 256>>, <<"CPCA", "mat",
+    257>>, <<"CPCA", "ten", 3>>, <<"CPCA", "ten", 4>>, <<"CPCA", "ten", 5>>, <<"CPCA", "vec", 5>>, <<"CPCA", "vec", 63>>,
+    <<"CPCA", "vec", 64>>, <<"CPCA", "vec", 65>>, <<"CPCA", "vec", 95>>, <<"CPCA", "vec", 96>>, <<"CPCA", "vec", 97>>,
+    <<"CPCA", "vec", 127>>, <<"CPCA", "vec", 128>>, <<"CPCA", "vec", 129>>, <<"CPCA", "vec", 255>>, <<"CPCA", "vec",
+    256>>, <<"CPCA", "vec", 257>>, <<"PCA", "mat", 127>>, <<"PCA", "mat", 255>>, <<"PLS", "mat",
+    63>>, <<"PLS", "mat", 96>>, <<"PLS", "mat", 127>>, <<"PLS", "mat", 255>>, <<"PLS", "ten", 3>>, <<"PLS", "ten", 4>>}
+K2Covered == AtAnyState(/\ \A k \in Kinds : \A ty \in TypesOf(k) : \A b \in K2Blocks : \A d \in {0, 1, 2} :
+                             Hits(k, ty, b + d - 1) \/ <<k, ty, b + d - 1>> \in K2Unreachable
+                        /\ \A u \in K2Unreachable : ~Hits(u[1], u[2], u[3]))
 ====
